@@ -1,6 +1,7 @@
 import logging
 from typing import Sequence
 
+from casbin.core_enforcer import EnforceContext
 from casbin.enforcer import Enforcer
 from casbin.model import Model, FastModel, fast_policy_filter, FunctionMap
 from casbin.persist.adapters import FileAdapter
@@ -38,11 +39,18 @@ class FastEnforcer(Enforcer):
         """decides whether a "subject" can access a "object" with the operation "action",
         input parameters are usually: (sub, obj, act).
         """
-        if self._cache_key_order is None or any(x >= len(rvals) for x in self._cache_key_order):
+        # the bucket keys are request values: a leading EnforceContext is not one of them, and only "p" is indexed
+        context = rvals[0] if len(rvals) != 0 and isinstance(rvals[0], EnforceContext) else None
+        request = rvals if context is None else rvals[1:]
+        if (
+            self._cache_key_order is None
+            or (context is not None and context.ptype != "p")
+            or any(x >= len(request) for x in self._cache_key_order)
+        ):
             # no bucket can be selected: enforce_ex reports the request size
             result, _ = self.enforce_ex(*rvals)
         else:
-            keys = [rvals[x] for x in self._cache_key_order]
+            keys = [request[x] for x in self._cache_key_order]
             with fast_policy_filter(self.model.model["p"]["p"].policy, *keys):
                 result, _ = self.enforce_ex(*rvals)
 
